@@ -149,12 +149,19 @@ def shard(args):
             connect_at = r.randrange(ex['n'])
             k, nonce = connect_at, ex['nonce']
             tgt = 'r%d-%s.example:443' % (k, nonce)
-            st = r.pick([407, 403, 502, 404])
-            body = b'denied %d' % k
+            # ... or accepts, after which the tunnel carries plain HTTP (the remaining exchanges): the parser probes the first line
+            # behind the CONNECT and goes on parsing
+            st = r.pick([407, 403, 502, 404, 200, 200])
+            if st == 200 and connect_at == ex['n'] - 1:
+                st = 403        # (an accepted CONNECT that nothing follows stays open until the connection is closed; the tunnel cases are C16's)
+            body = b'denied %d' % k if st != 200 else b''
             rq = ('CONNECT %s HTTP/1.1\r\nHost: %s\r\n\r\n' % (tgt, tgt)).encode()
-            rs = ('HTTP/1.1 %d Refused\r\nX-Id: %d-%s\r\nContent-Length: %d\r\n\r\n' % (st, k, nonce, len(body))).encode() + body
+            if st == 200:
+                rs = ('HTTP/1.1 200 Connection established\r\nX-Id: %d-%s\r\n\r\n' % (k, nonce)).encode()
+            else:
+                rs = ('HTTP/1.1 %d Refused\r\nX-Id: %d-%s\r\nContent-Length: %d\r\n\r\n' % (st, k, nonce, len(body))).encode() + body
             ex['reqs'][k] = (rq, dict(headers=[['Host', tgt, False]]))
-            ex['ress'][k] = (rs, dict(id='%d-%s' % (k, nonce), status=st, body=body, headers=[['X-Id', '%d-%s' % (k, nonce), False], ['Content-Length', str(len(body)), False]]))
+            ex['ress'][k] = (rs, dict(id='%d-%s' % (k, nonce), status=st, body=body, headers=[['X-Id', '%d-%s' % (k, nonce), False]] + ([['Content-Length', str(len(body)), False]] if st != 200 else [])))
             ex['connect_at'] = k
         ops, readings, style = make_history(ex, r, early=(i % 16 in (2, 10) and not opts.get('expect_4xx')))
         if connect_at is not None:
